@@ -93,8 +93,12 @@ CHECKS = {
    technique="bounded-exhaustive enumeration of flow graphs x inputs through a real engine, with a recording wrapper around every processor factory; the executed-processor sequence is compared with an independent reference walker",
    text="Family A: every request graph over <=3 probe processors (root + forward connections, <=2 ordered connections per node over conditions {none,a} (thorough {none,a,b}), stream-end connections anywhere in the list) x 3 response shapes x every output choice per processor including 'answers the request itself'; family B: the same graph family as the response direction; family C: 2-3 user flows on nested URL patterns x 4 quota sets (system flows with the real QuotaProcessorInc/Dec) x every subset of processors answering early. Each configuration is rendered to YAML, loaded into a real streams.Stream and driven through the request and response entry points; every processor execution emits an event (flow, key, direction, output). Oracle: the event sequence equals the reference walk (declared order, exactly the connections whose condition equals the output, nothing after an early response, response path continuing from the answering processor's response connection), system flows precede user flows on requests, user and system flows run in reverse order on responses.",
    note="probe processors (output chosen by the harness) stand in for the processor vocabulary; flow-to-flow references are not generated; acyclic forward graphs only (C05 covers the rest); the order between different user flows on the request is observed, not prescribed"),
+ "C05": dict(level="exploration", engine="seqx-product", design="§3 C05",
+   technique="bounded-exhaustive enumeration of flow graphs the YAML schema can express (cycles, self loops, rootless directions, unreachable nodes) and of schema oddities through the real validator and loader; every accepted configuration is run on every input with an executed-processor step counter and panic guard",
+   text="Request direction: every graph over <=2 probe processors (any root or none, <=2 ordered connections per node to any node including itself or to the stream end, conditions {none,a}) and over 3 processors with <=1 connection per node (<=2 thorough); response direction: the same families over a request processor that may answer early plus response-only processors; 38 hand-written oddities (dangling references, duplicate keys/flows/parameters, missing parameters, self- and mutually-referencing flows, built-in processors in loops, 12 odd quota files). Each configuration is written to disk and submitted to validation.Validator (the code behind validate_flows, load_flows and flows-validator). For each accepted one the normal load must succeed and every transaction (every output choice per processor x request+response; for oddities 5 transactions with malformed bodies, odd headers and URLs) must finish within 64 processor executions per direction without panic; a validator panic or a crashed worker process (fatal stack overflow) is a violation.",
+   note="acceptance is whatever the validator says (rejecting a harmless configuration is not a violation); bounded = 64 processor executions per direction; the step counter panics before the Go stack can overflow, genuine fatal crashes are caught as worker deaths; probe processors stand in for the vocabulary in the generated graphs"),
 }
-NA_REASON = "check not built yet in this round (work in progress; planned per DESIGN.md §3)"
+NA_REASON = "no check registered"
 def main():
     checks = []
     for pid in ALL:
